@@ -445,7 +445,14 @@ func main() {
 		fmt.Sscanf(v, "%d", &workers)
 	}
 	vlib.Parallel(len(cases), workers, func(i int) {
-		o := execCase(scratch, cases[i], 20*time.Minute)
+		// watchdog: 10x the slowest case measured under load (dnn training in
+		// timing mode: ~10 min); a sabotaged run either dies early or is not
+		// decided
+		wd := 100 * time.Minute
+		if cases[i].Sabotage {
+			wd = 8 * time.Minute
+		}
+		o := execCase(scratch, cases[i], wd)
 		mu.Lock()
 		outs = append(outs, o)
 		mu.Unlock()
@@ -478,11 +485,20 @@ func main() {
 			case o.Verdict == "verified" && o.Sabotaged:
 				sens[cs.Workload] = "INSENSITIVE (oracle passed although read-back data was corrupted)"
 				ck.Count("sabotage_oracle_insensitive", 1)
+				if !w.OracleBlind {
+					ck.Inconclusive("oracle of " + cs.Workload + " is insensitive to corrupted read-back data and the table does not say so: its runs prove nothing")
+				}
 			case o.Verdict == "verified":
 				sens[cs.Workload] = "not decided (no D2H request crossed the DMA path)"
 			case o.Verdict == "failed" && o.Sabotaged:
 				sens[cs.Workload] = "sensitive (" + o.Symptom + ")"
+				if strings.HasPrefix(o.Symptom, "crash:") && w.Oracle == oVerify {
+					sens[cs.Workload] = "sensitive (the host code itself tripped over the corrupted data before Verify(): " + o.Symptom + ")"
+				}
 				ck.Count("sabotage_oracle_sensitive", 1)
+				if w.OracleBlind {
+					fmt.Printf("[C01] note: %s is marked OracleBlind but its oracle reacted to the sabotage; update the table\n", cs.Workload)
+				}
 			default:
 				sens[cs.Workload] = "not decided (" + o.Verdict + ")"
 			}
@@ -504,7 +520,9 @@ func main() {
 			if o.PostCrash {
 				ck.Count("died_after_verify_returned", 1)
 			}
-			if o.Trace["kernels_launched"] >= 1 && o.Trace["d2h_started"] >= 1 && (!cs.Class.Timing || o.Trace["d2h_bytes_dma"] >= 1) {
+			if w.OracleBlind {
+				ck.Count("verified_runs_with_blind_oracle", 1)
+			} else if o.Trace["kernels_launched"] >= 1 && o.Trace["d2h_started"] >= 1 && (!cs.Class.Timing || o.Trace["d2h_bytes_dma"] >= 1) {
 				ck.Nontrivial(cs.tripleKey())
 			} else {
 				ck.Inconclusive(fmt.Sprintf("vacuous run %s: kernels=%d d2h=%d bytes=%d", cs.tripleKey(), o.Trace["kernels_launched"], o.Trace["d2h_started"], o.Trace["d2h_bytes_dma"]))
@@ -534,10 +552,11 @@ func main() {
 	for _, w := range ws {
 		tbl[w.Name] = map[string]any{"suite": w.Suite, "archs": w.Archs, "anchor": w.AnchorSrc, "admissibility": w.Admit,
 			"plain_multi_gpu": w.PlainMulti, "host_splits_work": w.Splits, "unified_memory": w.UnifiedMem, "timing_list": w.TimingList,
-			"oracle": w.Oracle, "runnable": w.Runnable, "classes": len(w.classes())}
+			"oracle": w.Oracle, "oracle_blind": w.OracleBlind, "runnable": w.Runnable, "classes": len(w.classes())}
 	}
 	ck.Set("workload_table", tbl)
 
+	cleanup() // Finish exits the process: deferred calls do not run
 	minNT := 40
 	if ck.Thorough() {
 		minNT = 600
@@ -554,7 +573,7 @@ func main() {
 		Assumptions: []string{
 			"admissible parameter vectors are those of the table (anchored on amd/tests/acceptance/cases.go resp. the sample defaults; moved off the anchor only along guarded / padded / exactly-gridded dimensions; rules and sources are in the evidence under workload_table)",
 			"timing mode is generated only for (workload, class) pairs the acceptance matrix lists; workloads absent from the matrix (bitonicsort is commented out there) get every gcn3/r9nano class they are capable of; cdna3 timing = vectoradd on mi300a in {1}, unified {1,2}, unified {1,2,3,4}",
-			"the oracle is the workload's own Verify() (tolerances and blind spots included: matrixmultiplication checks row 0 only, bitonicsort checks order only, conv2d runs on an all-zero input)",
+			"the oracle is the workload's own Verify() (tolerances and blind spots included: matrixmultiplication checks row 0 only, bitonicsort checks order only, conv2d runs on an all-zero input); fft's Verify() never reads the result (sabotage-confirmed), its runs are executed but not counted as non-trivial",
 			"a watchdog kill is inconclusive; a hang is a violation only if the exact deadlock predicate fired inside the child",
 			"vgg16 is linked but not run (dataset not shipped, cost)",
 		},
